@@ -496,3 +496,15 @@ Example la_grows_with_a_call_in_flight :
     [CEv (EStart 0); CConfig 3; CEv (EStart 0); CEv (EFinish 1 OOk); CEv (EFinish 0 OErr)]
   = Ok ([(0, 2); (1, 3)]%nat, ([0; 0; 0], [None; None])).
 Proof. vm_compute. reflexivity. Qed.
+
+(* T2: loadbalance/int_slice.go gcd as regenerated from the source on every run (Gen/GoFuncs.v):
+   with a loop budget of min(x,y) iterations it returns (never runs out of fuel, never panics) and the
+   value is the mathematical gcd. *)
+From HV Require Import Lib.GoLite Gen.GoFuncs Proofs.GoFuncsProofs.
+Theorem C18_source_gcd_correct : forall x y, 0 <= x -> 0 <= y ->
+  lb_gcd (Z.to_nat (if x <? y then x else y)) x y = GRet (Z.gcd x y).
+Proof. exact lb_gcd_source_spec. Qed.
+Print Assumptions C18_source_gcd_correct.
+
+Example source_gcd_nonvacuous : lb_gcd 4 12 18 = GRet 6 /\ lb_gcd 0 0 5 = GRet 5 /\ lb_gcd 1 7 0 = GRet 7.
+Proof. vm_compute. repeat split. Qed.
